@@ -185,6 +185,11 @@ def gen_cases(run):
                     exp = dur_expect(sign, [(num.replace("_", ""), unit)])
                     cases.append(Case("duration:" + unit, prog_init("TIME", lit), exp,
                                       ["dur", unit if unit != "ms" else "x", "1" if "." in num else "0", hexs(num)]))
+    # an explicit '+' sign is not in the grammar of durations: rejected, or (if ever accepted) the positive value
+    for num, unit in (("5", "s"), ("1.5", "h"), ("250", "ms"), ("0", "d"), ("2", "m")):
+        for pre in ("T#", "TIME#", "t#"):
+            lit = pre + "+" + num + unit
+            cases.append(Case("duration:plus", prog_init("TIME", lit), ("reject-or", dur_expect("", [(num, unit)]))))
     for lit, parts in (("T#1h30m", [("1", "h"), ("30", "m")]), ("T#1d2h3m4s5ms", [("1", "d"), ("2", "h"), ("3", "m"), ("4", "s"), ("5", "ms")]),
                        ("T#5m_30s", [("5", "m"), ("30", "s")]), ("T#2s500ms", [("2", "s"), ("500", "ms")]), ("T#25h_15m", [("25", "h"), ("15", "m")]),
                        ("T#1d_2h_3m_4s_5.5ms", [("1", "d"), ("2", "h"), ("3", "m"), ("4", "s"), ("5.5", "ms")])):
@@ -269,6 +274,9 @@ def observed(r):
 def matches(exp, obs):
     if obs[0] == "crash":
         return False
+    if exp[0] == "reject-or":
+        # a spelling outside IEC 61131-3 that some tools accept: either rejected, or read as the value it plainly denotes
+        return obs[0] == "reject" or matches(exp[1], obs)
     if exp[0] == "reject":
         return obs[0] == "reject"
     if obs[0] != "ok":
